@@ -73,6 +73,7 @@ thread_local! {
     /// Called before each poll of an internally spawned task: true = requeue instead of running.
     static DEFER: RefCell<Option<Box<dyn FnMut() -> bool>>> = const { RefCell::new(None) };
 }
+thread_local! { static JUST_BLOCKED: Cell<bool> = const { Cell::new(false) }; }
 thread_local! { static IO_YIELD: RefCell<Option<Box<dyn FnMut() -> bool>>> = const { RefCell::new(None) }; }
 /// Decides, per asynchronous socket send, whether the send yields once before completing.
 pub fn set_io_yield_decider(f: Option<Box<dyn FnMut() -> bool>>) { IO_YIELD.with(|c| *c.borrow_mut() = f); }
@@ -142,7 +143,11 @@ impl UdpSocket {
     pub fn local_addr(&self) -> io::Result<SocketAddr> { self.0.local_addr() }
     pub fn try_send_to(&self, buf: &[u8], to: SocketAddr) -> io::Result<usize> {
         // a real socket reports WouldBlock when its buffer is momentarily full; the simulator decides when
-        if IO_YIELD.with(|c| c.borrow_mut().as_mut().map(|f| f()).unwrap_or(false)) {
+        // (never twice in a row, so that a retry loop always makes progress)
+        let block = !JUST_BLOCKED.with(|c| c.replace(false))
+            && IO_YIELD.with(|c| c.borrow_mut().as_mut().map(|f| f()).unwrap_or(false));
+        if block {
+            JUST_BLOCKED.with(|c| c.set(true));
             return Err(io::Error::new(io::ErrorKind::WouldBlock, "simulated full send buffer"));
         }
         self.0.try_send_to(buf, to)
